@@ -91,7 +91,7 @@ let () =
             occur: no memory limit, or a limit of at least 1.5 MB (enough for the radix stacks of the generated cases) *)
          let mem_big = String.length mem_s > 7 || (String.length mem_s = 7 && mem_s >= "1500000") in
          let radix_only = (mem_s = "0" || mem_big) && algo <> 6 && algo <> 7 in
-         let runm = (n <= small || radix_only) && maxlen <= 3000 in      (* char_at is O(depth) in the list model *)
+         let runm = small >= 0 && (n <= small || radix_only) && maxlen <= 3000 in   (* small < 0: checker only *)      (* char_at is O(depth) in the list model *)
          let model, mspec, canon, exact, lcp0 =
            if not runm then "skip", "-", "-", "-", "-"
            else begin
